@@ -136,6 +136,10 @@ func c16RelayAddress(kind string, good string) string {
 		return "relay.example.com:8080"
 	case "refused":
 		return "http://127.0.0.1:1"
+	case "nohost":
+		return "http://"
+	case "space":
+		return " "
 	}
 	panic("c16 harness: unknown address kind " + kind)
 }
